@@ -63,6 +63,10 @@ def run(tier, seed, replay):
     for (line, fl) in vc.fails:
         for cl in fl["clauses"]:
             c = fl["case"]
+            if c.get("override") == 1:
+                # `--override-input-compression` is not part of C04 (stated relative to the compression the source DECLARES)
+                run.observation("override_input_compression", {"clause": cl, "src_tc": c["src_tc"], "target": c["target"], "fmt": c["fmt"], "args": c.get("args")})
+                continue
             rec = {"clause": cl, "src_tc": c["src_tc"], "target": c["target"], "force": c["force"], "fmt": c["fmt"], "case": c}
             if c["id"] < len(case_list):
                 rec["replay_case"] = case_list[c["id"]]
